@@ -4,9 +4,9 @@
     Gen.StUV); s2_lookupPos/s2_lookupIJ are initLookupCell re-executed over the translated
     literal tables (Model.CellIDTables).  [rep c f l k] is
       0<=f<6 /\ 0<=l<=30 /\ 0<=k<4^l /\ c = f*2^61 + (2k+1)*4^(30-l). *)
-From Coq Require Import ZArith List Bool Floats.
+From Coq Require Import ZArith List Bool Floats Reals.
 From Geo Require Import Base.GoPrim Gen.CellIDFull Model.CellIDTables
-  Proofs.C01_Tables Proofs.C01_Algebra Proofs.C01_IJ Proofs.C01_Point.
+  Base.F64Arith Proofs.C01_Tables Proofs.C01_Algebra Proofs.C01_IJ Proofs.C01_Advance Proofs.C01_Point Proofs.StUV_Mono.
 (* the hand models compared with Go by the observer (built with this file: one make target) *)
 From Geo Require Model.CellIDNbr Model.CellIDText Model.C01Obs.
 Import ListNotations.
@@ -103,6 +103,26 @@ Theorem c01_next_wrap_is_index_plus_one : forall c f l k, rep c f l k ->
 Proof. intros c f l k H. split; [exact (NextWrap_rep c f l k H)|exact (PrevWrap_NextWrap c f l k H)]. Qed.
 Print Assumptions c01_next_wrap_is_index_plus_one.
 
+Theorem c01_advance_wrap_is_index_plus_n : forall c f l k n, rep c f l k -> - 2 ^ 63 <= n < 2 ^ 63 ->
+  let i := (index f l k + n) mod (6 * 4 ^ l) in
+  rep (s2_CellID_AdvanceWrap c n) (i / 4 ^ l) l (i mod 4 ^ l) /\
+  s2_CellID_AdvanceWrap c n = (2 * i + 1) * 4 ^ (30 - l).
+Proof. intros c f l k n H Hn. split; [exact (AdvanceWrap_rep c f l k n H Hn)|exact (AdvanceWrap_index c f l k n H Hn)]. Qed.
+Print Assumptions c01_advance_wrap_is_index_plus_n.
+
+Theorem c01_advance_wrap_steps : forall c f l k, rep c f l k ->
+  s2_CellID_AdvanceWrap c 1 = s2_CellID_NextWrap c /\ s2_CellID_AdvanceWrap c (-1) = s2_CellID_PrevWrap c /\
+  (forall n m, - 2 ^ 63 <= n < 2 ^ 63 -> - 2 ^ 63 <= m < 2 ^ 63 -> - 2 ^ 63 <= n + m < 2 ^ 63 ->
+     s2_CellID_AdvanceWrap (s2_CellID_AdvanceWrap c n) m = s2_CellID_AdvanceWrap c (n + m)) /\
+  (forall n, - 2 ^ 63 <= n < 2 ^ 63 -> - 2 ^ 63 <= n + 6 * 4 ^ l < 2 ^ 63 ->
+     s2_CellID_AdvanceWrap c (n + 6 * 4 ^ l) = s2_CellID_AdvanceWrap c n).
+Proof.
+  intros c f l k H. destruct (AdvanceWrap_one c f l k H) as [A B]. split; [exact A|]. split; [exact B|]. split.
+  - intros n m Hn Hm Hnm. exact (AdvanceWrap_compose c f l k n m H Hn Hm Hnm).
+  - intros n Hn Hn'. exact (AdvanceWrap_periodic c f l k n H Hn Hn').
+Qed.
+Print Assumptions c01_advance_wrap_steps.
+
 (** points -------------------------------------------------------------------- *)
 Theorem c01_point_leaf_is_valid : forall p, exists f k, 0 <= f < 6 /\ rep (s2_cellIDFromPoint p) f 30 k /\
   s2_CellID_IsValid (s2_cellIDFromPoint p) = true /\ s2_CellID_IsLeaf (s2_cellIDFromPoint p) = true /\
@@ -110,6 +130,27 @@ Theorem c01_point_leaf_is_valid : forall p, exists f k, 0 <= f < 6 /\ rep (s2_ce
 Proof. exact leaf_valid. Qed.
 Print Assumptions c01_point_leaf_is_valid.
 
+(** [H_UVROUNDTRIP] (a statement about float64 arithmetic only, DESIGN.md section 4) and the
+    per-point premise [H_FACEUV p] (the projection of p on its own face succeeds with
+    |u|,|v| <= 1: true of every finite non-zero p) are explicit premises. *)
+Theorem c01_leaf_contains_point_under_H : H_UVROUNDTRIP -> forall p, H_FACEUV p ->
+  s2_Cell_ContainsPoint (s2_CellFromCellID (s2_cellIDFromPoint p)) p = true.
+Proof. exact leaf_contains. Qed.
+Print Assumptions c01_leaf_contains_point_under_H.
+
+(** stToUV is weakly monotone on [0,1] (closed; Proofs/StUV_Mono.v): the uv-interval of a
+    grid column widens when the column does *)
+Theorem c01_stToUV_monotone : forall x y, inR 0 1 x -> inR 0 1 y -> (RV x <= RV y)%R ->
+  fle (s2_stToUV x) (s2_stToUV y).
+Proof. exact stToUV_mono. Qed.
+Print Assumptions c01_stToUV_monotone.
+
 (** the premises are satisfiable *)
+Example c01_hypotheses_example :
+  H_FACEUV (mk_s2_Point (mk_r3_Vector 1 0 0)) /\ uv_roundtrip_at 0%float /\ uv_roundtrip_at 1%float.
+Proof.
+  split; [exact H_FACEUV_example|]. destruct H_UVROUNDTRIP_instances as (A & B & _). split; assumption.
+Qed.
+
 Example c01_rep_example : rep 3458764513820540928 1 0 0 /\ rep 1 0 30 0 /\ rep 13835058055282163711 5 30 (4 ^ 30 - 1).
 Proof. repeat split; vm_compute; congruence. Qed.
